@@ -584,6 +584,10 @@ End Bytes.
 
 (* ---------- the significant tokens of the result, for a reference tokenizer with the chunking
    property (the token-level clause of C14, relative to hypotheses about the lexer stack) ---------- *)
+Lemma concat_flat_map' {A B} (f : A -> list (list B)) l :
+  concat (flat_map f l) = concat (map (fun x => concat (f x)) l).
+Proof. induction l as [|x l IH]; [reflexivity|]. cbn. rewrite concat_app, IH. reflexivity. Qed.
+
 Section Tokens.
 Variable T : Type.
 Variable sigt : bytes -> option (list T).      (* the significant tokens of a text, if it lexes *)
@@ -593,7 +597,9 @@ Hypothesis chunking : forall a b ta tb,
 (* a newline at the very end adds no significant token *)
 Hypothesis final_nl : forall a ta, sigt a = Some ta -> sigt (a ++ [10]) = Some ta.
 Hypothesis sigt_nil : sigt [] = Some [].
-Hypothesis echo_faithful : forall ls q, parse_lines ls = Ok q -> concat (echo q) = concat ls.
+(* the echo of a lexed text of the dialect has the text's significant tokens (quoted strings may be
+   spelled differently, with the same denotation: this is what C06 states) *)
+Hypothesis echo_tokens : forall ls q t, parse_lines ls = Ok q -> sigt (concat ls) = Some t -> sigt (concat (echo q)) = Some t.
 Hypothesis file_lines_concat : forall c, concat (file_lines c) = c.
 
 Definition toks (x : bytes) : list T := match sigt x with Some t => t | None => [] end.
@@ -703,23 +709,71 @@ Lemma build_code_tokens fuel mp mc out :
                             ++ concat (map toks preamble_require) ++ toks mc
                      end).
 Proof.
-  intros H. destruct (build_code_bytes echo_faithful file_lines_concat _ _ _ _ H)
-    as (r & pk & tail & Hb & Ht & ->).
-  exists r, pk. split; [exact Hb|]. intros Hpp Hpr Hend Hpk Hmc.
-  assert (Hmain : forall x tx, sigt x = Some tx -> sigt (x ++ tail) = Some tx).
-  { intros x tx Hx. destruct Ht as [->| ->]; [rewrite app_nil_r; exact Hx | apply final_nl, Hx]. }
-  destruct pk as [|e0 pk0]; [apply Hmain, lexes_toks, Hmc|].
-  apply Hmain. remember (e0 :: pk0) as pk eqn:Epk. clear Epk Hb.
-  rewrite blocks_bytes.
-  replace (concat preamble_package ++ concat (flat_map block_chunks pk) ++ concat preamble_require ++ mc)
-    with (concat (preamble_package ++ flat_map block_chunks pk ++ preamble_require) ++ mc)
-    by (rewrite !concat_app, <- !app_assoc; reflexivity).
-  rewrite sigt_chunks; [| |exact Hmc].
-  - rewrite !map_app, !concat_app, <- !app_assoc, (blocks_toks pk Hpk). reflexivity.
-  - apply Forall_app. split; [|apply Forall_app; split].
-    + rewrite Forall_forall in *. intros l Hl. split; [right; apply preamble_package_nl, Hl | apply Hpp, Hl].
-    + apply blocks_chunks_ok; assumption.
-    + rewrite Forall_forall in *. intros l Hl. split; [right; apply preamble_require_nl, Hl | apply Hpr, Hl].
+  unfold ReqEmbed.build_code. intros H.
+  destruct (build_lua fuel mp mc) as [[r pk]|e] eqn:Hb; [|discriminate]. cbn [bind] in H.
+  unfold ReqEmbed.lua_section in H.
+  destruct (parse_lines (echo r)) as [r2|e]; [|discriminate]. cbn [bind] in H. injection H as <-.
+  exists r, pk. split; [reflexivity|]. intros Hpp Hpr Hend Hpk Hmc.
+  destruct (build_structure _ _ _ _ _ Hb) as (m & Hm & He & Hs).
+  assert (Em : sigt (concat (echo m)) = Some (toks mc)).
+  { apply (echo_tokens _ _ _ Hm). rewrite file_lines_concat. apply lexes_toks, Hmc. }
+  assert (Hmain : forall x tx, sigt x = Some tx ->
+            sigt (x ++ (if ends_with_nl (last (echo r) []) then [] else [10])) = Some tx).
+  { intros x tx Hx. destruct (ends_with_nl (last (echo r) [])); [rewrite app_nil_r; exact Hx | apply final_nl, Hx]. }
+  apply Hmain. destruct pk as [|e0 pk0].
+  - subst r. exact Em.
+  - apply (echo_tokens _ _ _ Hs). remember (e0 :: pk0) as pk eqn:Epk. clear Epk Hb Hs He.
+    assert (Hz : lexes (concat (echo m))) by (unfold lexes; rewrite Em; discriminate).
+    assert (Tz : toks (concat (echo m)) = toks mc) by (unfold toks at 1; rewrite Em; reflexivity).
+    replace (concat (preamble_package ++ flat_map block pk ++ preamble_require ++ echo m))
+      with (concat (preamble_package ++ flat_map block_chunks pk ++ preamble_require) ++ concat (echo m)).
+    2:{ rewrite !concat_app, <- !app_assoc. f_equal. f_equal.
+        rewrite <- blocks_bytes. symmetry. apply concat_flat_map'. }
+    rewrite sigt_chunks; [| |exact Hz].
+    + rewrite !map_app, !concat_app, <- !app_assoc, (blocks_toks pk Hpk), Tz. reflexivity.
+    + apply Forall_app. split; [|apply Forall_app; split].
+      * rewrite Forall_forall in *. intros l Hl. split; [right; apply preamble_package_nl, Hl | apply Hpp, Hl].
+      * apply blocks_chunks_ok; assumption.
+      * rewrite Forall_forall in *. intros l Hl. split; [right; apply preamble_require_nl, Hl | apply Hpr, Hl].
 Qed.
+
+(* the tokens of one embedded package, for a stripping step that acts on the significant tokens as
+   [sstrip] does: the file's tokens, or the file's tokens without what [sstrip] removes *)
+Section Strip.
+Variable sstrip : list T -> list T.
+Hypothesis strip_tokens : forall q q', strip q = Ok q' ->
+  sigt (concat (echo q')) = option_map sstrip (sigt (concat (echo q))).
+
+Lemma loaded_block_tokens e : loaded e ->
+  exists rpath (gl : bool) qpath content, find rpath (fst e) = Some (qpath, content) /\
+    (lexes content ->
+     lexes (concat (echo (snd e))) /\
+     toks (concat (echo (snd e))) = if gl then toks content else sstrip (toks content)).
+Proof.
+  intros (rpath & gl & qpath & Hl). exists rpath, gl.
+  unfold ReqEmbed.load in Hl. destruct (find rpath (fst e)) as [[path content]|]; [|discriminate].
+  destruct (parse_lines (file_lines content)) as [q0|e0] eqn:Hq; [|discriminate]. cbn [bind] in Hl.
+  assert (E0 : lexes content -> sigt (concat (echo q0)) = Some (toks content)).
+  { intros Hc. apply (echo_tokens _ _ _ Hq). rewrite file_lines_concat. apply lexes_toks, Hc. }
+  exists path, content. destruct gl.
+  - cbn [bind] in Hl. injection Hl as <- <-. split; [reflexivity|]. intros Hc. specialize (E0 Hc).
+    split; [unfold lexes; rewrite E0; discriminate | unfold toks at 1; rewrite E0; reflexivity].
+  - destruct (strip q0) as [q1|e1] eqn:Hs; [|discriminate]. cbn [bind] in Hl. injection Hl as <- <-.
+    split; [reflexivity|]. intros Hc. specialize (E0 Hc). pose proof (strip_tokens _ _ Hs) as H. rewrite E0 in H.
+    cbn [option_map] in H.
+    split; [unfold lexes; rewrite H; discriminate | unfold toks at 1; rewrite H; reflexivity].
+Qed.
+
+Lemma build_block_tokens fuel mp mc r pk :
+  build_lua fuel mp mc = Ok (r, pk) ->
+  Forall (fun e => exists rpath (gl : bool) qpath content, find rpath (fst e) = Some (qpath, content) /\
+            (lexes content ->
+             lexes (concat (echo (snd e))) /\
+             toks (concat (echo (snd e))) = if gl then toks content else sstrip (toks content))) pk.
+Proof.
+  intros H. destruct (build_once _ _ _ _ _ H) as (m & _ & _ & _ & _ & Hl).
+  eapply Forall_impl; [|exact Hl]. intros e. apply loaded_block_tokens.
+Qed.
+End Strip.
 End Tokens.
 End EmbedProofs.
